@@ -443,3 +443,121 @@ pub fn unstructured_pairs(n: u32, es: u32, count: usize) -> Vec<(u32, u32)> {
     }
     v
 }
+
+// -------------------------------------------------------------------------------------------------
+// "solve for the second operand" for + - * /
+// -------------------------------------------------------------------------------------------------
+
+/// positive operands: every fraction shape at a menu of scales + `extra` unstructured fractions per scale
+pub fn operand_list(n: u32, es: u32, extra: u32) -> Vec<u32> {
+    let lim = (n as i32 - 2) * (1 << es);
+    let mut st: u64 = 0xA076_1D64_78BD_642F ^ ((n as u64) << 40) ^ ((es as u64) << 32);
+    let mut v = vec![];
+    let base = [0i32, 1, 2, 3, 4, 5, 7, 9, 12, 16, 20, 24, 30, 40, 52];
+    for s in base.iter().flat_map(|&s| [s, -s]) {
+        if s.abs() >= lim {
+            continue;
+        }
+        let Some(nf) = frac_bits(n, es, s) else { continue };
+        let mut fr = shapes(nf, false);
+        if nf > 4 {
+            for _ in 0..extra {
+                st = st.wrapping_mul(6364136223846793005).wrapping_add(1442695040888963407);
+                fr.push(((st >> 24) as u32) & (((1u64 << nf) - 1) as u32));
+            }
+        }
+        for f in fr {
+            v.push(build(n, es, s, |_| f).unwrap());
+        }
+    }
+    v.sort();
+    v.dedup();
+    v
+}
+
+/// For every first operand a of the list and every target boundary T (a posit or the midpoint above it, at a
+/// menu of scales, 4 fraction patterns, both signs) the second operand is solved for so that the exact result of
+/// the operation is T up to the rounding of the solved operand: add: b = RN(T - a); sub: b = RN(a - T);
+/// mul: b = RN(T / a); div: (RN(T * a), a). The solved operand is displaced by -nb/2..nb/2 encodings. For + and -
+/// the target scales are the operand's scale + (-2..=31) (the exact result is then within one unit in b's last
+/// place of the boundary, b overlapping a at every alignment); for * and / the target scales cover the whole range
+/// (the exact result is within 2^-(fraction length of the solved operand) relative of the boundary — a small
+/// fraction of the result's unit in the last place wherever the result's fraction is short).
+pub fn bin_solve_space(n: u32, es: u32, op: u8, al: Arc<Vec<u32>>, nb: u32, what: &str) -> Space {
+    let m = if n == 32 { u32::MAX } else { (1u32 << n) - 1 };
+    let lim = (n as i32 - 2) * (1 << es) - 1;
+    let scales: Vec<i32> = if op < 2 {
+        (-2..=31).collect()
+    } else {
+        (-lim..=lim).filter(|s| s.abs() <= 8 || s.rem_euclid(3) == 0).collect()
+    };
+    let ns = scales.len() as u64;
+    let per = ns * 4 * 2 * 2 * nb as u64 * 2;
+    let na = al.len() as u64;
+    let desc = format!(
+        "{} ({} first operands) x target boundary (scale {} x 4 fractions x {{posit, midpoint}} x sign) x second operand solved for, displaced by {} encodings x sign of the pair",
+        what,
+        na,
+        if op < 2 { "= operand scale + (-2..=31)".to_string() } else { format!("menu of {} over the whole range", ns) },
+        nb
+    );
+    Space::func(na * per, desc, move |i| {
+        let a = al[(i / per) as usize];
+        let mut r = i % per;
+        let flip = r & 1 == 1;
+        r >>= 1;
+        let d = (r % nb as u64) as i32 - (nb as i32) / 2;
+        r /= nb as u64;
+        let sg = r & 1 == 1;
+        r >>= 1;
+        let mid = r & 1 == 1;
+        r >>= 1;
+        let fi = (r & 3) as u32;
+        r >>= 2;
+        let sc0 = scales[r as usize];
+        let Some(xa) = o::decode(n, es, a) else { return 0 };
+        if xa.is_zero() {
+            return 0;
+        }
+        let sa = xa.e + (127 - xa.m.leading_zeros() as i32);
+        let sc = if op < 2 { sa + sc0 } else { sc0 };
+        let top = (1u32 << (n - 1)) - 1;
+        let fallback = (a as u128) << 32 | (1u128 << (n - 2));
+        if sc.abs() > lim {
+            return fallback;
+        }
+        let Some(xb) = build(n, es, sc, |nf| {
+            let full = if nf == 0 { 0 } else { ((1u64 << nf) - 1) as u32 };
+            match fi {
+                0 => 0,
+                1 => 0x5555_5555 & full,
+                2 => full,
+                _ => 0x1234_5679 & full,
+            }
+        }) else {
+            return fallback;
+        };
+        let t = if mid { if xb < top { o::decode64(n + 1, es, 2 * xb as u64 + 1) } else { None } } else { o::decode(n, es, xb) };
+        let Some(t) = t else { return fallback };
+        let t = if sg { t.negate() } else { t };
+        let solved = match op {
+            0 => o::sub(t, xa),
+            1 => o::sub(xa, t),
+            2 => o::div(t, xa),
+            _ => o::mul(t, xa),
+        };
+        if solved.is_zero() {
+            return fallback;
+        }
+        let s0 = o::round_ex(n, es, solved).0;
+        let s = s0.wrapping_add(d as u32) & m;
+        let (mut x, y) = if op == 3 { (s, a) } else { (a, s) };
+        let mut y = y;
+        if flip {
+            // negate both: add/sub results are negated, mul/div results unchanged
+            x = x.wrapping_neg() & m;
+            y = y.wrapping_neg() & m;
+        }
+        (x as u128) << 32 | y as u128
+    })
+}
